@@ -232,6 +232,8 @@ def run(cx):
     from props.C11 import ack_advance_exact
     ack_advance_exact(cx, "C15.h")
     log_lookup_siblings(cx, "C15.i")
+    from props.shared import resend_ref_in_own_frame
+    resend_ref_in_own_frame(cx, "C15.j")
 
 
 def log_lookup_siblings(cx, iid):
